@@ -124,17 +124,28 @@ impl Entry {
 /// the stateless evaluation of one query on the real code (used by clients, by the simulator's
 /// "alone" evaluations, and by the restart oracle in a fresh process)
 pub fn eval_entry(e: &Entry, f: usize, s: &str) -> Outcome {
-    let fmt = &ENUM_FORMATS[f];
+    let fmt = enum_format(f);
+    // lexical side: the shared static for the stock formats, a freshly derived instance for dialects
+    let dialect;
+    let lex: &narsese::conversion::string::impl_lexical::NarseseFormat = if f < 3 {
+        lex_static(f)
+    } else {
+        dialect = guarded(|| lex_dialect(f));
+        match &dialect {
+            Some(d) => d,
+            None => return Outcome::panic(),
+        }
+    };
     match e {
         Entry::Enum => enum_outcome(guarded(|| fmt.parse::<Narsese>(s))),
         Entry::SideTruth => debug_outcome(guarded(|| fmt.parse::<Truth>(s).map(|t| abstract_truth(&t)))),
         Entry::SideBudget => debug_outcome(guarded(|| fmt.parse::<Budget>(s).map(|t| abstract_budget(&t)))),
         Entry::SideStamp => debug_outcome(guarded(|| fmt.parse::<Stamp>(s))),
         Entry::SidePunct => debug_outcome(guarded(|| fmt.parse::<Punctuation>(s))),
-        Entry::Lex => debug_outcome(guarded(|| lex_static(f).parse(s))),
-        Entry::LexTerm => debug_outcome(guarded(|| lex_static(f).parse_term(s))),
+        Entry::Lex => debug_outcome(guarded(|| lex.parse(s))),
+        Entry::LexTerm => debug_outcome(guarded(|| lex.parse_term(s))),
         Entry::LexFold => enum_outcome(guarded(|| -> Result<Narsese, String> {
-            let lexical = lex_static(f).parse(s).map_err(|e| e.to_string())?;
+            let lexical = lex.parse(s).map_err(|e| e.to_string())?;
             let folded: Result<Narsese, _> = lexical.try_fold_into(fmt);
             folded.map_err(|e| format!("{e:?}"))
         })),
@@ -144,7 +155,7 @@ pub fn eval_entry(e: &Entry, f: usize, s: &str) -> Outcome {
 // ---------------------------------------------------------------------------------------------
 // requests and their faults
 
-pub const FAULT_NAMES: [&str; 29] = [
+pub const FAULT_NAMES: [&str; 30] = [
     "truncate",
     "replace_char",
     "delete_char",
@@ -174,6 +185,7 @@ pub const FAULT_NAMES: [&str; 29] = [
     "empty_container",
     "long_input",
     "invisible_prefix_or_suffix",
+    "dialect_copula",
 ];
 
 #[derive(Clone, Debug)]
@@ -196,7 +208,8 @@ const NUMS: [f64; 12] = [0.0, 1.0, 0.5, 0.9, 0.25, 0.125, 0.75, 0.99, 0.12345678
 
 fn gen_items(ch: &mut Choices, f: usize, gp: &GenParams) -> Items {
     let fmt = &ENUM_FORMATS[f];
-    let d = gen_desc(ch, gp, 0, false);
+    // (one input in ten is a bare atom: the generator's descriptions are compounds at the root)
+    let d = if ch.chance(1, 10) { gen_desc(ch, &GenParams { max_depth: 0, ..*gp }, 0, false) } else { gen_desc(ch, gp, 0, false) };
     let mut rs = RStats::default();
     let rp = RealiseParams { reorder: false, duplicates: false, capacity: false, wrap: 0, text_routes: false };
     let term = realise(&d, ch, &mut rs, &rp);
@@ -289,7 +302,7 @@ fn gen_request(ch: &mut Choices, gp: &GenParams, fault_rate: u32, f: usize) -> R
     let a_punct = || it.punct.clone().unwrap_or_else(|| fmt.sentence.punctuation_judgement.to_string());
     let a_stamp = || it.stamp.clone().filter(|s| !s.is_empty()).unwrap_or_else(|| fmt.format_stamp(&Stamp::Present));
     // item-level and character-level faults; index 0 (truncate) is the "simplest"
-    let which = ch.weighted(&[14, 8, 6, 8, 9, 7, 5, 5, 5, 4, 4, 7, 5, 4, 3, 3, 1, 1, 3, 3, 2, 3, 6, 5, 5, 3, 4, 2, 4]);
+    let which = ch.weighted(&[14, 8, 6, 8, 9, 7, 5, 5, 5, 4, 4, 7, 5, 4, 3, 3, 1, 1, 3, 3, 2, 3, 6, 5, 5, 3, 4, 2, 4, 4]);
     faults.push(which);
     let text = match which {
         0 => {
@@ -421,6 +434,28 @@ fn gen_request(ch: &mut Choices, gp: &GenParams, fault_rate: u32, f: usize) -> R
                 format!("{head}{prefix}")
             }
         }
+        29 => {
+            // a statement written with the extra copula of the user dialect of this format
+            // (well-formed for the dialect, not for the stock format)
+            let extra = ["isa", "\\sqsubseteq{}", "属于"][f];
+            let sp = fmt.space.format_terms;
+            let st = format!("{}A{sp}{extra}{sp}B{}", fmt.statement.brackets.0, fmt.statement.brackets.1);
+            match ch.choose(3) {
+                0 => st,
+                1 => join(&[&it.budget, &Some(st), &it.punct.clone().or_else(|| Some(a_punct())), &it.stamp, &it.truth]),
+                _ => {
+                    // inside the generated term: replace the first stock copula found
+                    let mut t = full.clone();
+                    for c in fmt.copulas() {
+                        if let Some(pos) = t.find(c) {
+                            t.replace_range(pos..pos + c.len(), extra);
+                            break;
+                        }
+                    }
+                    t
+                }
+            }
+        }
         28 => {
             // characters an editor or a file format leaves behind and nobody sees: byte order
             // mark, zero-width space, no-break space, ideographic space, tab, line ends
@@ -503,7 +538,7 @@ enum Op {
 
 #[derive(Default, Clone)]
 pub struct SessionsRunStats {
-    pub faults: [u64; 29],
+    pub faults: [u64; 30],
     pub requests: u64,
     pub requests_faulty: u64,
     pub ops: u64,
@@ -522,6 +557,7 @@ pub struct SessionsRunStats {
     pub long_sessions: u64,
     pub soak_runs: u64,
     pub other_calls: u64,
+    pub fresh_thread_queries: u64,
     pub space_variants: u64,
     pub calls_temp_format: u64,
     pub coop_runs: u64,
@@ -687,7 +723,7 @@ impl<'w> World<'w> {
                 }
                 let _ = guarded(|| {
                     use std::hash::{Hash, Hasher};
-                    if let Ok(v) = ENUM_FORMATS[f].parse::<Narsese>(s) {
+                    if let Ok(v) = enum_format(f).parse::<Narsese>(s) {
                         let text = ENUM_FORMATS[g].format_narsese(&v);
                         let _ = ENUM_FORMATS[g].parse::<Narsese>(&text);
                         let term: &narsese::enum_narsese::Term = match &v {
@@ -720,24 +756,24 @@ impl<'w> World<'w> {
                 let o = match (&e, variant) {
                     (Entry::Enum, 1) => {
                         self.st.borrow_mut().stats.calls_chars += 1;
-                        enum_outcome(guarded(|| ENUM_FORMATS[f].parse_chars::<Narsese>(s.chars().collect())))
+                        enum_outcome(guarded(|| enum_format(f).parse_chars::<Narsese>(s.chars().collect())))
                     }
                     (Entry::Enum, 3) => {
                         // the format held by value in a reused slot (as `FORMAT_X.parse(..)` on the const does)
                         self.st.borrow_mut().stats.calls_temp_format += 1;
-                        enum_outcome(guarded(|| with_temp_enum_format(f, |fmt| fmt.parse::<Narsese>(s).map_err(|e| e.to_string()))))
+                        enum_outcome(guarded(|| if f < 3 { with_temp_enum_format(f, |fmt| fmt.parse::<Narsese>(s).map_err(|e| e.to_string())) } else { enum_format(f).parse::<Narsese>(s).map_err(|e| e.to_string()) }))
                     }
                     (Entry::Lex, 2) => {
                         self.st.borrow_mut().stats.calls_lex_fresh += 1;
                         debug_outcome(guarded(|| {
-                            let fresh = lex_fresh(f);
+                            let fresh = if f < 3 { lex_fresh(f) } else { lex_dialect(f) };
                             fresh.parse(s)
                         }))
                     }
                     (Entry::LexTerm, 2) => {
                         self.st.borrow_mut().stats.calls_lex_fresh += 1;
                         debug_outcome(guarded(|| {
-                            let fresh = lex_fresh(f);
+                            let fresh = if f < 3 { lex_fresh(f) } else { lex_dialect(f) };
                             fresh.parse_term(s)
                         }))
                     }
@@ -745,6 +781,15 @@ impl<'w> World<'w> {
                 };
                 self.st.borrow_mut().log.line(|| format!("    -> {}", o.show));
                 self.observe(&e, f, s, &o, format!("client {client} {}{}", ENTRY_NAMES[e.idx()], ["", " via parse_chars", " on a fresh instance", " with the format held by value"][variant as usize]));
+                // fresh-thread oracle: now and then the same query is asked again at once on a thread
+                // that has never used the library (whatever this thread's history left in
+                // thread-local state is not there)
+                let ask_fresh = self.st.borrow_mut().ch.chance(1, 6);
+                if ask_fresh {
+                    let o2 = std::thread::scope(|sc| sc.spawn(|| eval_entry(&e, f, s)).join()).unwrap_or_else(|_| Outcome::panic());
+                    self.st.borrow_mut().stats.fresh_thread_queries += 1;
+                    self.observe(&e, f, s, &o2, "a fresh thread".to_string());
+                }
             }
             Op::Batch { f, reqs, alone_first } => {
                 let texts: Vec<&'w str> = reqs.iter().map(|r| self.reqs[*r].text.as_str()).collect();
@@ -778,7 +823,7 @@ impl<'w> World<'w> {
                 let masks: RefCell<Vec<Option<u8>>> = RefCell::new(vec![]);
                 let _ = take_last_dirty();
                 let it = BatchIter { world: self, texts: &session_texts, pos: 0, client, masks: &masks };
-                let results = guarded(|| ENUM_FORMATS[f].parse_multi(it));
+                let results = guarded(|| enum_format(f).parse_multi(it));
                 // mask seen by the last re-targeting
                 masks.borrow_mut().push(take_last_dirty());
                 let masks = masks.into_inner();
@@ -1035,7 +1080,15 @@ pub fn run_sessions(ch: &mut Choices, verbose: bool) -> SessionsReport {
             let pick_req = |ch: &mut Choices| ch.choose(reqs.len() as u32) as usize;
             // stateless calls mostly use the format the request was written in; sometimes another
             // one (the same string under two vocabularies), and sometimes both back to back
-            let fmt_of = |ch: &mut Choices, r: usize| if ch.chance(1, 6) { ch.choose(3) as usize } else { reqs[r].f };
+            let fmt_of = |ch: &mut Choices, r: usize| {
+                // mostly the request's own format; sometimes another stock format; sometimes a user
+                // dialect of it (same keywords, another name predicate / one more copula)
+                match ch.weighted(&[70, 15, 15]) {
+                    0 => reqs[r].f,
+                    1 => ch.choose(3) as usize,
+                    _ => 3 + reqs[r].f,
+                }
+            };
             // 0 = batch (the session), then the stateless entry points
             match ch.weighted(&[50, 10, 8, 6, 8, 4, 6, 8, 8]) {
                 0 => {
@@ -1057,13 +1110,14 @@ pub fn run_sessions(ch: &mut Choices, verbose: bool) -> SessionsReport {
                     }
                     // a session speaks one format: by default the format of its first request
                     let f = if f_batch == usize::MAX { reqs[ids[0]].f } else { f_batch };
+                    let f = if ch.chance(1, 12) { 3 + f % 3 } else { f };
                     let alone_first = ch.chance(1, 2);
                     q.push_back(Op::Batch { f, reqs: ids, alone_first });
                 }
                 8 => {
                     let r = pick_req(ch);
                     stats.other_calls += 1;
-                    q.push_back(Op::Other { f: reqs[r].f, g: ch.choose(3) as usize, req: r });
+                    q.push_back(Op::Other { f: reqs[r].f % 3, g: ch.choose(3) as usize, req: r });
                 }
                 w => {
                     let mut r = pick_req(ch);
